@@ -51,6 +51,32 @@ def enzymes():
 
 
 @functools.lru_cache(None)
+def three_prime_enzymes():
+    """One representative per distinct geometry among the enzymes that leave a 3' overhang downstream of an unambiguous,
+    non-palindromic site of 4-7 letters (single cut, overhang window entirely outside the site).  Usable through
+    signature-typed parts only.  -> list of (name, Geometry)"""
+    seen = {}
+    for e in sorted(Restriction.AllEnzymes, key=lambda e: e.__name__):
+        if e.is_blunt() or e.is_unknown() or e.is_palindromic() or not e.is_3overhang():
+            continue
+        if e.scd5 is not None or e.fst5 is None:
+            continue
+        site = e.site
+        if set(site) - set("ACGT") or not (4 <= len(site) <= 7):
+            continue
+        off = e.fst5 - len(site) - e.ovhg
+        if off < 0 or e.ovhg <= 0:
+            continue
+        el = e.elucidate()
+        if el != site + "N" * off + "_" + "N" * e.ovhg + "^N":
+            raise HarnessError("geometry of {} disagrees with elucidate(): {}".format(e.__name__, el))
+        key = (site, off, e.ovhg)
+        if key not in seen:
+            seen[key] = (e.__name__, rm.Geometry(e.__name__, site, off, e.ovhg, three=True))
+    return sorted(seen.values(), key=lambda t: (t[1].ov, len(t[1].site), t[1].off, t[0]))
+
+
+@functools.lru_cache(None)
 def degenerate_enzymes():
     """Type IIS enzymes of the same kind (5' overhang, single cut downstream of the site, non-palindromic) whose
     recognition site contains IUPAC ambiguity codes -- outside C01's stated domain, inside C04's ("every supported enzyme")."""
